@@ -111,6 +111,8 @@ type wireStats struct {
 	Generated                                                               int64
 }
 
+// toWire drains the statistics accumulated since the previous message (every message carries a
+// delta; the parent merges each one as it arrives, so nothing is sent twice).
 func toWire(l *localStats, generated int64) *wireStats {
 	w := &wireStats{Execs: l.execs, Edges: l.edges, Evals: l.evals, Transitions: l.transitions, Traces: l.traces,
 		StatesCounted: l.statesCounted, NontrivCounted: l.nontrivCounted, Outcomes: l.outcomes, Caps: l.caps,
@@ -121,6 +123,11 @@ func toWire(l *localStats, generated int64) *wireStats {
 	for k := range l.nontriv {
 		w.Nontriv = append(w.Nontriv, k)
 	}
+	// reset: the next message starts from zero
+	l.execs, l.edges, l.evals, l.transitions, l.traces, l.statesCounted, l.nontrivCounted = 0, 0, 0, 0, 0, 0, 0
+	l.states, l.nontriv = map[uint64]struct{}{}, map[uint64]struct{}{}
+	l.outcomes, l.caps = map[string]int64{}, map[string]int64{}
+	l.samples = nil
 	return w
 }
 
@@ -156,6 +163,7 @@ func WorkerMain(h *Harness, args []string) {
 	ls := newLocalStats()
 	stack := [][]int{{}}
 	var seq int64 // counts the cases owned by this shard, in deterministic DFS order
+	sinceCkpt := 0
 	violSeen := map[string]bool{}
 	violClass := map[string]int{}
 	var suppressed int64
@@ -248,7 +256,9 @@ func WorkerMain(h *Harness, args []string) {
 				enc.Encode(&workerMsg{Kind: "viol", Violation: v})
 				out.Flush()
 			}
-			if ls.execs%50000 == 0 {
+			sinceCkpt++
+			if sinceCkpt >= 50000 || len(ls.states)+len(ls.nontriv) > 400000 {
+				sinceCkpt = 0
 				enc.Encode(&workerMsg{Kind: "ckpt", Seq: seq, Stats: toWire(ls, seq)})
 				out.Flush()
 			}
@@ -407,7 +417,6 @@ func (e *IsolatedExplorer) Explore() *Stats {
 			defer hb.close()
 			resumeAfter := int64(-1)
 			var skips []string
-			var base *wireStats // statistics up to resumeAfter (from the last checkpoint)
 			for {
 				hb.set(-1, nil, 0)
 				cmd := exec.Command("sh", "-c", fmt.Sprintf("ulimit -v %d; exec \"$0\" \"$@\"", e.MemKB), e.Self, "worker", h.Name, e.Tier,
@@ -419,7 +428,6 @@ func (e *IsolatedExplorer) Explore() *Stats {
 					fmt.Fprintln(os.Stderr, "mc: cannot start worker:", err)
 					os.Exit(2)
 				}
-				var last *wireStats
 				var lastSeq int64 = resumeAfter
 				finished := false
 				restartReq := false
@@ -436,14 +444,19 @@ func (e *IsolatedExplorer) Explore() *Stats {
 						switch m.Kind {
 						case "viol":
 							addViol(m.Violation)
-						case "ckpt":
-							last, lastSeq = m.Stats, m.Seq
-						case "done":
-							last, lastSeq = m.Stats, m.Seq
-							finished = true
-						case "restart":
-							last, lastSeq = m.Stats, m.Seq
-							restartReq = true
+						case "ckpt", "done", "restart":
+							// every message carries the delta since the previous one: merge it now; a
+							// restart resumes after lastSeq, so nothing is counted twice
+							mu.Lock()
+							mergeWire(st, m.Stats, states, nontriv)
+							mu.Unlock()
+							lastSeq = m.Seq
+							if m.Kind == "done" {
+								finished = true
+							}
+							if m.Kind == "restart" {
+								restartReq = true
+							}
 						}
 					}
 				}()
@@ -471,15 +484,9 @@ func (e *IsolatedExplorer) Explore() *Stats {
 				werr := cmd.Wait()
 				close(waitDone)
 				if finished && werr == nil {
-					mu.Lock()
-					mergeWire(st, last, base, states, nontriv)
-					mu.Unlock()
 					return
 				}
 				if restartReq && werr == nil {
-					mu.Lock()
-					base = combineWire(base, last)
-					mu.Unlock()
 					resumeAfter = lastSeq
 					continue
 				}
@@ -531,18 +538,11 @@ func (e *IsolatedExplorer) Explore() *Stats {
 				if exhausted {
 					mu.Lock()
 					st.Caps["crash_budget_exhausted"]++
-					mergeWire(st, last, base, states, nontriv)
 					mu.Unlock()
 					return
 				}
 				skips = append(skips, strconv.FormatInt(seq, 10))
-				if last != nil {
-					// restart after the last checkpoint; keep its statistics as base
-					mu.Lock()
-					base = combineWire(base, last)
-					mu.Unlock()
-					resumeAfter = lastSeq
-				}
+				resumeAfter = lastSeq // restart after the last checkpoint
 			}
 		}(sh)
 	}
@@ -567,51 +567,7 @@ func caseKey(cs interface{}) string {
 	return ""
 }
 
-// A worker restarted after checkpoint seq S starts with fresh statistics that
-// cover cases > S only, so the checkpoint statistics are carried as base.
-func combineWire(a, b *wireStats) *wireStats {
-	if a == nil {
-		return b
-	}
-	if b == nil {
-		return a
-	}
-	c := *b
-	c.Execs += a.Execs
-	c.Edges += a.Edges
-	c.Evals += a.Evals
-	c.Transitions += a.Transitions
-	c.Traces += a.Traces
-	c.StatesCounted += a.StatesCounted
-	c.NontrivCounted += a.NontrivCounted
-	c.States = append(append([]uint64{}, a.States...), b.States...)
-	c.Nontriv = append(append([]uint64{}, a.Nontriv...), b.Nontriv...)
-	c.Outcomes = map[string]int64{}
-	for k, v := range a.Outcomes {
-		c.Outcomes[k] += v
-	}
-	for k, v := range b.Outcomes {
-		c.Outcomes[k] += v
-	}
-	c.Caps = map[string]int64{}
-	for k, v := range a.Caps {
-		c.Caps[k] += v
-	}
-	for k, v := range b.Caps {
-		c.Caps[k] += v
-	}
-	c.Samples = append(append([]interface{}{}, a.Samples...), b.Samples...)
-	if a.MaxDepth > c.MaxDepth {
-		c.MaxDepth = a.MaxDepth
-	}
-	if a.MaxDevs > c.MaxDevs {
-		c.MaxDevs = a.MaxDevs
-	}
-	return &c
-}
-
-func mergeWire(st *Stats, last, base *wireStats, states, nontriv map[uint64]struct{}) {
-	w := combineWire(base, last)
+func mergeWire(st *Stats, w *wireStats, states, nontriv map[uint64]struct{}) {
 	if w == nil {
 		return
 	}
